@@ -186,7 +186,10 @@ where
             root: self.storage.create(catalog)?,
             encrypt_dict: None,
             size: 0,
-            id: vec!["foo".into(), "bar".into()],
+            id: match self.id {
+                Some([a, b]) => vec![a.as_str().into(), b.as_str().into()],
+                None => vec!["foo".into(), "bar".into()]
+            },
             info_dict: self.info,
             prev_trailer_pos: None,
         };
